@@ -105,7 +105,12 @@ def run_swarm(case):
                 raise _Boom('prelude')
             pre.parallel(_fail)
             del log[:]
-            swarm = Swarm(_container(uris, case.get('container', 'list')), factory=Factory())
+            given = list(uris)
+            if case.get('repeat') is not None and uris and case.get('container', 'list') in ('list', 'tuple', 'generator'):
+                # the collection names one Crazyflie twice: it is still one member, at the place where it was named first
+                given.append(uris[case['repeat'] % len(uris)])
+                out.feat('uri-named-twice')
+            swarm = Swarm(_container(given, case.get('container', 'list')), factory=Factory())
             out.feat('uris-as-' + case.get('container', 'list'))
             members = dict(swarm._cfs) if hasattr(swarm, '_cfs') else {}
             # ---------------- open
@@ -310,7 +315,7 @@ def swarm_case(draw):
                           'args': draw(st.sampled_from(['none', 'empty', 'fresh', 'fresh', 'reuse', 'shared', 'missing'])), 'nargs': draw(st.integers(0, 3)),
                           'fail': draw(st.one_of(st.just([]), st.lists(st.sampled_from(uris), unique=True, max_size=3))) if uris else [],
                           'yields': draw(st.integers(0, 3)), 'exc': draw(_exc), 'entry_kind': draw(st.sampled_from(['list', 'list', 'tuple']))})
-    return {'uris': uris, 'open_fail': open_fail, 'open_yields': draw(st.integers(0, 2)), 'calls': calls, 'schedule': draw(_sched), 'exc': draw(_exc),
+    return {'repeat': draw(st.sampled_from([None, None, None, 0, 1, 5])), 'uris': uris, 'open_fail': open_fail, 'open_yields': draw(st.integers(0, 2)), 'calls': calls, 'schedule': draw(_sched), 'exc': draw(_exc),
             'container': draw(st.sampled_from(['list', 'list', 'tuple', 'dict-keys', 'dict', 'generator']))}
 
 
